@@ -404,6 +404,95 @@ Proof.
   unfold lenN. rewrite !app_length. cbn [length]. lia.
 Qed.
 
+(** ---- create for ANY typed value: the conversion is a program over the storage ----------------- *)
+
+(** two states that agree below [n] (table, pending values, bytes) read alike below [n], provided the containers of the
+    object streams of the table lie below [n] as well *)
+Lemma resolve_ref_below f s s' n :
+  (forall i, i < n -> nthN (refs s') i = nthN (refs s) i) -> backend s' = backend s -> start s' = start s ->
+  (forall i, i < n -> clookup (changes s') i = clookup (changes s) i) ->
+  (forall i sid idx, i < n -> nthN (refs s) i = Some (XStream sid idx) -> sid < n) ->
+  forall r, fst r < n -> resolve_ref f s' r = resolve_ref f s r.
+Proof.
+  intros Hr Hb Hs Hc Hn. induction f as [|f IH]; intros r Hlt; cbn [Model.resolve_ref];
+    rewrite (Hc _ Hlt), (Hr _ Hlt), Hb, Hs.
+  - reflexivity.
+  - destruct (clookup (changes s) (fst r)) as [[p g]|]; [reflexivity|].
+    destruct (nthN (refs s) (fst r)) as [e|] eqn:En; [|reflexivity].
+    destruct e; try reflexivity.
+    rewrite IH; [reflexivity|]. cbn [fst]. exact (Hn _ _ _ Hlt En).
+Qed.
+
+(** what a conversion may do to the storage it is handed: allocate (append to the table), write the numbers it allocated,
+    leave everything below untouched.  Every ObjectWrite::to_primitive that only calls create / promise / fulfil-its-own
+    through the updater is of this kind; [nested_conv] is (lemma below). *)
+Definition conservative (conv : st -> res (st * prim)) : Prop :=
+  forall s1 s2 p, conv s1 = Ok (s2, p) ->
+    (exists more, refs s2 = refs s1 ++ more) /\
+    (forall i, i < lenN (refs s1) -> clookup (changes s2) i = clookup (changes s1) i) /\
+    backend s2 = backend s1 /\ start s2 = start s1.
+
+Lemma nthN_app_below {A} (l more : list A) i : i < lenN l -> nthN (l ++ more) i = nthN l i.
+Proof.
+  unfold nthN, lenN. intros Hlt. apply nth_error_app1. lia.
+Qed.
+
+(** Updater::create for any conservative conversion: the number handed out is the one reserved before the conversion ran
+    (so nothing the conversion allocates can collide with it), it reads back as the converted value, and every number
+    that existed before reads as before *)
+Lemma create_with_ryw s conv s' r :
+  conservative conv -> create_with s conv = Ok (s', r) ->
+  r = (lenN (refs s), 0) /\
+  (exists s2 p, conv (mkSt (refs s ++ [XPromised]) (changes s) (backend s) (start s) [] (cached s)) = Ok (s2, p) /\
+     (forall f g, resolve_ref f s' (fst r, g) = Ok p) /\
+     lenN (refs s) < lenN (refs s') /\ refs s' = refs s2) /\
+  ((forall i sid idx, i < lenN (refs s) -> nthN (refs s) i = Some (XStream sid idx) -> sid < lenN (refs s)) ->
+     forall f r0, fst r0 < lenN (refs s) -> resolve_ref f s' r0 = resolve_ref f s r0) /\
+  backend s' = backend s.
+Proof.
+  intros Hc. unfold create_with.
+  set (s1 := mkSt (refs s ++ [XPromised]) (changes s) (backend s) (start s) [] (cached s)).
+  destruct (conv s1) as [[s2 p]| | |] eqn:Ec; cbn [bind]; try discriminate.
+  intros H. inversion H; subst; clear H. cbn [fst].
+  destruct (Hc _ _ _ Ec) as [[more Hm] [Hch [Hb Hs]]].
+  assert (Hl1 : lenN (refs s1) = lenN (refs s) + 1).
+  { unfold s1. cbn [refs]. unfold lenN. rewrite app_length. cbn [length]. lia. }
+  split; [reflexivity|]. split.
+  { exists s2, p. split; [reflexivity|]. split.
+    - intros f g. eapply resolve_ref_changed. cbn [changes fst]. apply clookup_cinsert_same.
+    - cbn [refs]. split; [|reflexivity]. rewrite Hm. unfold lenN in *. rewrite app_length. lia. }
+  split.
+  { intros Hn f r0 Hlt.
+    apply (resolve_ref_below f _ _ (lenN (refs s))); cbn [refs changes backend start]; try assumption.
+    - intros i Hi. rewrite Hm. unfold s1. cbn [refs]. rewrite <- app_assoc. apply nthN_app_below. exact Hi.
+    - intros i Hi. rewrite clookup_cinsert_other by lia. rewrite Hch by lia. reflexivity. }
+  cbn [backend]. exact Hb.
+Qed.
+
+(** conservative conversions are closed under nesting: a conversion that itself creates a value with a conservative
+    conversion (and builds its result from the reference it got) is conservative — pages whose contents create streams
+    whose dictionaries create … to any depth *)
+Lemma create_with_conservative conv (k : N * N -> prim) :
+  conservative conv -> conservative (fun s => do r <- create_with s conv; Ok (fst r, k (snd r))).
+Proof.
+  intros Hc s1 s3 p. unfold create_with.
+  set (s1' := mkSt (refs s1 ++ [XPromised]) (changes s1) (backend s1) (start s1) [] (cached s1)).
+  destruct (conv s1') as [[s2 q]| | |] eqn:Ec; cbn [bind]; try discriminate.
+  intros H. inversion H; subst; clear H. cbn [fst snd refs changes backend start].
+  destruct (Hc _ _ _ Ec) as [[more Hm] [Hch [Hb Hs]]].
+  split; [exists ([XPromised] ++ more); rewrite Hm; unfold s1'; cbn [refs]; rewrite <- app_assoc; reflexivity|].
+  split; [|split; [exact Hb|exact Hs]].
+  intros i Hi. rewrite clookup_cinsert_other by lia. rewrite Hch; [reflexivity|].
+  unfold s1'. cbn [refs]. unfold lenN in *. rewrite app_length. cbn [length]. lia.
+Qed.
+
+Lemma nested_conv_conservative v : conservative (nested_conv v).
+Proof.
+  intros s1 s2 p. unfold nested_conv, create. intros H. inversion H; subst; clear H. cbn [refs changes backend start].
+  split; [exists [XPromised]; reflexivity|]. split; [|split; reflexivity].
+  intros i Hi. apply clookup_cinsert_other. lia.
+Qed.
+
 (** ---- the cache is invisible -------------------------------------------------------------- *)
 
 Definition cache_ok (s : st) : Prop :=
